@@ -129,6 +129,9 @@ func (r *Value) Pull(ctx context.Context, opts ...ReadOption) <-chan *ValueChang
 				continue
 			}
 			last = change.Value
+			if r.equivalence != nil {
+				last = proto.Clone(last) // a copy: what was sent is the subscriber's to edit
+			}
 			select {
 			case <-ctx.Done():
 				return // give up sending
